@@ -45,23 +45,31 @@ def meta_sizes(path):
 
 
 def record_sizes(infos, path_of):
-    """size in bytes of each record AS THE WRITER LAYS IT OUT (whatever it consists of): written files
-    with 1, 2, ... records differ by exactly one record"""
+    """size in bytes of the header and of each record AS THE WRITER LAYS THEM OUT (whatever they consist of: one pickle, several,
+    length prefixes, raw blocks): files written with 1, 2, ... records differ by exactly one record, and a file holding the first
+    record TWICE exceeds the file holding it once by that record's size -- which gives the header size without assuming anything
+    about how the metadata is stored.  The spec's stream is <<header, 0, 0, record_1, ...>> (its three metadata blocks read as one)."""
     from sedfitter.fit_info import FitInfoFile
-    lens = []
-    for k in range(1, len(infos) + 1):
-        p = path_of(k)
+
+    def written(records, p):
         fo = FitInfoFile(p, 'w')
-        for info in infos[:k]:
+        for info in records:
             fo.write(info)
         fo.close()
-        lens.append(os.path.getsize(p))
-    msz = meta_sizes(path_of(1))
-    sizes = list(msz)
-    prev = sum(msz)
-    for L in lens:
+        return os.path.getsize(p)
+    lens = [written(infos[:k], path_of(k)) for k in range(1, len(infos) + 1)]
+    twice = written([infos[0], infos[0]], path_of(1) + '.twice')
+    os.remove(path_of(1) + '.twice')
+    if len(infos) == 1:
+        written(infos, path_of(1))
+    rec1 = twice - lens[0]
+    sizes = [lens[0] - rec1, 0, 0, rec1]
+    prev = lens[0]
+    for L in lens[1:]:
         sizes.append(L - prev)
         prev = L
+    if min(sizes[0], *sizes[3:]) <= 0:
+        raise MachineryError('cannot determine the layout of the fit file: sizes %r' % (sizes,))
     return sizes
 
 
